@@ -32,6 +32,7 @@ func init() {
 			{ID: "C13-R8", Title: "a configured base is never dropped", Floor: 1, Run: baseNeverDropped},
 			{ID: "C13-R9", Title: "mount lookup compares cleaned paths", Floor: 1, Run: mountPathCleaned},
 			{ID: "C13-R10", Title: "a VirtualOS owns its mount table", Floor: 1, Run: virtualOSOwnsItsMaps},
+			{ID: "C13-R11", Title: "no direct host file access in the mediated modules (shared with C12-R1)", Floor: 5, Run: c12r1},
 		},
 	})
 }
